@@ -376,6 +376,73 @@ def dict_lookup(ex, d, k):
         return False, None
 
 
+def range_is_big(r):
+    """a range whose bounds are symbolic or that has more than 64 elements is kept as an interval"""
+    if isinstance(r.start, int) and isinstance(r.stop, int):
+        return r.stop - r.start > 64
+    return True
+
+
+def copy_set(s):
+    t = SSet(s.d.items())
+    t.ranges = list(s.ranges)
+    t.minus = s.minus
+    t.pred = s.pred
+    return t
+
+
+def set_member(ex, s, x):
+    """x in s for an interval set: a term, no fork"""
+    if not is_num(x):
+        return False
+    zx = zi(x)
+    alts = [veq(ex, x, y) for y in s.d.values()]
+    for lo, hi in s.ranges:
+        alts.append(mk_bool(z3.And(zx >= zi(lo), zx < zi(hi))))
+    if s.pred is not None:
+        lo, hi, f = s.pred
+        alts.append(mk_bool(z3.And(zx >= lo, zx < hi, f(zx))))
+    r = vor(ex, alts) if alts else False
+    if s.minus is not None:
+        m = set_member(ex, s.minus, x)
+        r = vand(ex, [r, vnot(m)])
+    return r
+
+
+def set_size_bounds(ex, s):
+    """(lower, upper) z3 terms bounding the number of members"""
+    up = z3.IntVal(len(s.d))
+    lo = z3.IntVal(1 if s.d else 0)
+    for a, b in s.ranges:
+        w = z3.If(zi(b) > zi(a), zi(b) - zi(a), 0)
+        up = up + w
+        lo = z3.If(w > lo, w, lo)
+    if s.pred is not None:
+        up = up + (s.pred[1] - s.pred[0])
+    if s.minus is not None:
+        mlo, mup = set_size_bounds(ex, s.minus)
+        lo = z3.If(lo - mup > 0, lo - mup, 0)
+    return lo, up
+
+
+def set_len(ex, s):
+    """len() of an interval set: a fresh integer between the bounds (overlaps are not counted exactly)"""
+    lo, up = set_size_bounds(ex, s)
+    # the same set expression has the same size: memoise on the structure of the set
+    def key(t):
+        return (tuple(sorted(map(str, t.d))), tuple((str(zi(a)), str(zi(b))) for a, b in t.ranges),
+                None if t.pred is None else str(t.pred[2]), None if t.minus is None else key(t.minus))
+    memo = ex.ghost.setdefault('set_len_memo', {})
+    k = key(s)
+    if k in memo:
+        return memo[k]
+    n = ex.fresh_int('set!len', 0, None)
+    memo[k] = n
+    ex.assume(mk_bool(z3.And(zi(n) >= lo, zi(n) <= up)))
+    ex.notes.append('len() of a set holding symbolic intervals is abstracted to its bounds')
+    return n
+
+
 def make_set(ex, items):
     s = SSet()
     for x in items:
@@ -575,6 +642,19 @@ def binop(ex, op, l, r, inplace=False):
             return str_percent(ex, l, r)
         if isinstance(l, SBytes):
             raise Unsupported('bytes % formatting')
+    if isinstance(op, ast.Sub) and isinstance(l, SSet) and isinstance(r, SSet) and \
+            (l.ranges or r.ranges or l.minus is not None or r.minus is not None or l.pred or r.pred):
+        s = copy_set(l)
+        if s.minus is not None:
+            m = copy_set(s.minus)
+            m.d.update(r.d)
+            m.ranges += r.ranges
+            if r.minus is not None:
+                raise Unsupported('difference of nested interval-set differences')
+            s.minus = m
+        else:
+            s.minus = copy_set(r)
+        return s
     if isinstance(op, ast.Sub) and isinstance(l, SSet) and isinstance(r, SSet):
         s = SSet()
         for k, v in l.d.items():
@@ -884,6 +964,8 @@ def contains(ex, cont, x):
             return vor(ex, [veq(ex, x, ok) for (ok, _) in cont.d.values()])
         found, _ = dict_lookup(ex, cont, x)
         return found
+    if isinstance(cont, SSet) and (cont.ranges or cont.minus is not None or cont.pred is not None):
+        return set_member(ex, cont, x)
     if isinstance(cont, SSet):
         try:
             return key_of(ex, x) in cont.d
@@ -1467,6 +1549,12 @@ def getattr_(ex, obj, name):
         if name in ('index', 'count'):
             return NativeMethod(obj, name)
         ex.throw('AttributeError', "'tuple' object has no attribute %r" % name)
+    if isinstance(obj, slice):
+        if name in ('start', 'stop', 'step'):
+            return getattr(obj, name)
+        if name == 'indices':
+            return NativeMethod(obj, name)
+        ex.throw('AttributeError', "'slice' object has no attribute %r" % name)
     if isinstance(obj, CondVal) and name in ('notified', 'waits'):
         return getattr(obj, name)       # ghost counters (spec only)
     if isinstance(obj, LockVal) and name == 'held':
